@@ -182,7 +182,7 @@ def run_property(prop_id, tier, seed=0):
     os.makedirs(os.path.join(VERIF, "evidence"), exist_ok=True)
     with open(os.path.join(VERIF, "evidence", f"{prop_id}.json"), "w") as f:
         json.dump(ev, f, indent=1, default=str)
-    for line in out_lines:
+    for line in dict.fromkeys(out_lines):
         print(line)
     for m in messages:
         print("  " + m, file=sys.stderr)
